@@ -84,6 +84,16 @@ func runC09(c c09Case) []ev.Violation {
 }
 
 func c09Replay(cj []byte) []ev.Violation {
+	var probe struct {
+		Slow bool `json:"slow"`
+	}
+	if json.Unmarshal(cj, &probe) == nil && probe.Slow {
+		var sc c09SlowCase
+		if err := json.Unmarshal(cj, &sc); err != nil {
+			panic(err)
+		}
+		return runC09Slow(sc)
+	}
 	var c c09Case
 	if err := json.Unmarshal(cj, &c); err != nil {
 		panic(err)
@@ -97,7 +107,7 @@ func c09Run(r *ev.Run) {
 	if r.Thorough() {
 		L = 8
 	}
-	r.Rule = fmt.Sprintf("real detector, one beacon pixel at three levels (A,B,C, far apart); every stream of length 2..%d over {A,B,C} x {FFC-affected, not} with at most two FFC periods of any length (first frames, back-to-back) and at most one camera reset at any position; FFC timing at the boundary values 0 s / 10 s-1 ms (affected) and 10 s / 1 h (not); gap 1..3 x one-diff x warmer-only x {fixed, dynamic threshold}. Oracle (i): no FFC-affected frame nor the frame directly after a period reports motion. Oracle (ii), relational over the whole set: streams with the same flag pattern and the same content from the first frame after the last FFC period (or after the reset, fixed threshold) must give identical results from that frame on. Non-trivial = group with at least one motion result after the separator.", L)
+	r.Rule = fmt.Sprintf("real detector, one beacon pixel at three levels (A,B,C, far apart); every stream of length 2..%d over {A,B,C} x {FFC-affected, not} with at most two FFC periods of any length (first frames, back-to-back) and at most one camera reset at any position; FFC timing at the boundary values 0 s / 10 s-1 ms (affected) and 10 s / 1 h (not); gap 1..3 x one-diff x warmer-only x {fixed, dynamic threshold}. Oracle (i): no FFC-affected frame nor the frame directly after a period reports motion. Oracle (ii), relational over the whole set: streams with the same flag pattern and the same content from the first frame after the last FFC period (or after the reset, fixed threshold) must give identical results from that frame on. Stage 2 (slowly accumulating background state, dynamic threshold): macro events (hold value v for k frames, k in {1,12}) over values {bg, bg+1, bg+delta+1}, 1-2 pre-FFC blocks, FFC period of 1..3 frames, every 4-frame post-FFC content; same relational oracle. Non-trivial = group with at least one motion result after the separator.", L)
 	r.Bounds["max_length"] = L
 	r.Assumptions = []string{"a frame is FFC-affected iff TimeOn-LastFFCTime < 10 s (telemetry as the Lepton reports it)"}
 	var cfgs []DCfg
@@ -188,6 +198,143 @@ func c09Run(r *ev.Run) {
 				}
 			})
 		}
+	})
+	c09Slow(r)
+}
+
+// ---- stage 2: slowly accumulating detector state (dynamic threshold)
+//
+// The background estimate carries per-pixel state that builds up over tens of frames.
+// Single-frame alphabets cannot reach it within a feasible depth, so this stage uses
+// macro events: "hold value v for k frames" (k in {1,12}), values at the boundary of
+// the dynamic threshold (bg, bg+1, bg+delta+1).
+
+type c09SlowCase struct {
+	Cfg     DCfg     `json:"cfg"`
+	Slow    bool     `json:"slow"`
+	Pre     [][2]int `json:"pre_blocks"` // (value index, hold)
+	Pre2    [][2]int `json:"pre_blocks_2,omitempty"`
+	FFCLen  int      `json:"ffc_len"`
+	FFCVal  int      `json:"ffc_val"`
+	FFCVal2 int      `json:"ffc_val_2"`
+	Post    []int    `json:"post"`
+}
+
+var c09SlowVals = []uint16{1100, 1101, 1111}
+
+func c09SlowStream(c DCfg, pre [][2]int, ffcLen, ffcVal int, post []int) ([]DFrame, int) {
+	var fs []DFrame
+	add := func(v uint16, ffc bool) {
+		f := DFrame{Pix: grid(c, 1050), FFC: ffc, Tim: len(fs)}
+		f.Pix[1][1] = v
+		fs = append(fs, f)
+	}
+	for _, b := range pre {
+		for k := 0; k < b[1]; k++ {
+			add(c09SlowVals[b[0]], false)
+		}
+	}
+	for k := 0; k < ffcLen; k++ {
+		add(c09SlowVals[ffcVal], true)
+	}
+	sep := len(fs)
+	for _, v := range post {
+		add(c09SlowVals[v], false)
+	}
+	return fs, sep
+}
+
+func runC09Slow(c c09SlowCase) []ev.Violation {
+	a, sep := c09SlowStream(c.Cfg, c.Pre, c.FFCLen, c.FFCVal, c.Post)
+	b, _ := c09SlowStream(c.Cfg, c.Pre2, c.FFCLen, c.FFCVal2, c.Post)
+	ra, rb := detectStream(c.Cfg, a), detectStream(c.Cfg, b)
+	for i := sep; i < len(ra); i++ {
+		if ra[i] != rb[i] {
+			return []ev.Violation{{Sig: "C09:independence:after-ffc:accumulated-background-state", Msg: fmt.Sprintf("%+v: two streams with the same structure (pre-FFC holds %v, FFC period of %d frames) and identical frames %v after the FFC period, differing only before it (%v/%d vs %v/%d), give motion=%v vs %v on frame %d after the period", c.Cfg, c.Pre, c.FFCLen, c.Post, c.Pre, c.FFCVal, c.Pre2, c.FFCVal2, ra[i], rb[i], i-sep+1), Case: c}}
+		}
+	}
+	return nil
+}
+
+func c09Slow(r *ev.Run) {
+	var cfgs []DCfg
+	for _, g := range []int{1, 3} {
+		for _, one := range []bool{true, false} {
+			for _, warm := range []bool{false, true} {
+				cfgs = append(cfgs, DCfg{ResX: 3, ResY: 3, Edge: 1, T: 1000, Delta: 10, Count: 1, Gap: g, OneDiff: one, Warmer: warm, Dynamic: true, Preview: 1})
+			}
+		}
+	}
+	holds := []int{1, 12}
+	var structures [][]int // hold per pre-block
+	for _, h1 := range holds {
+		structures = append(structures, []int{h1})
+		for _, h2 := range holds {
+			structures = append(structures, []int{h1, h2})
+		}
+	}
+	type job struct {
+		cfg    DCfg
+		st     []int
+		ffcLen int
+	}
+	var jobs []job
+	for _, c := range cfgs {
+		for _, st := range structures {
+			for fl := 1; fl <= 3; fl++ {
+				jobs = append(jobs, job{c, st, fl})
+			}
+		}
+	}
+	r.Bounds["slow_state_jobs"] = len(jobs)
+	r.Parallel(len(jobs), func(w *ev.Worker, i int) {
+		j := jobs[i]
+		nb := len(j.st)
+		enumStrings("012", 4, nil, func(post []byte) {
+			pv := make([]int, 4)
+			for k := range post {
+				pv[k] = int(post[k] - '0')
+			}
+			var first []bool
+			var firstPre [][2]int
+			firstFFC := 0
+			enumStrings("012", nb+1, nil, func(pre []byte) {
+				blocks := make([][2]int, nb)
+				for k := 0; k < nb; k++ {
+					blocks[k] = [2]int{int(pre[k] - '0'), j.st[k]}
+				}
+				ffcVal := int(pre[nb] - '0')
+				fs, sep := c09SlowStream(j.cfg, blocks, j.ffcLen, ffcVal, pv)
+				res := detectStream(j.cfg, fs)
+				w.Evaluations++
+				w.States++
+				w.Transitions += int64(len(fs))
+				for k := range res {
+					if res[k] && (fs[k].FFC || (k > 0 && fs[k-1].FFC)) {
+						w.Violate("C09:suppression", fmt.Sprintf("%+v slow-state stream: frame %d (FFC-affected or directly following) reported as motion", j.cfg, k+1), c09SlowCase{Cfg: j.cfg, Slow: true, Pre: blocks, Pre2: blocks, FFCLen: j.ffcLen, FFCVal: ffcVal, FFCVal2: ffcVal, Post: pv}, len(fs))
+					}
+				}
+				if first == nil {
+					first, firstPre, firstFFC = res[sep:], blocks, ffcVal
+					m := false
+					for _, v := range first {
+						m = m || v
+					}
+					if m {
+						w.Nontrivial++
+					}
+					w.Outcome(ev.Hash(j.cfg, j.st, j.ffcLen, pv, first))
+					return
+				}
+				for k := range first {
+					if res[sep+k] != first[k] {
+						c := c09SlowCase{Cfg: j.cfg, Slow: true, Pre: firstPre, Pre2: blocks, FFCLen: j.ffcLen, FFCVal: firstFFC, FFCVal2: ffcVal, Post: pv}
+						w.Violate("C09:independence:after-ffc:accumulated-background-state", fmt.Sprintf("%+v: pre-FFC holds %v vs %v (FFC %d frames), identical post-FFC frames %v: motion differs on post-FFC frame %d", j.cfg, firstPre, blocks, j.ffcLen, pv, k+1), c, len(fs))
+						break
+					}
+				}
+			})
+		})
 	})
 }
 
